@@ -20,6 +20,7 @@ func Run(ctx *core.Ctx) {
 	ReplayFamilies(ctx)
 	PositionFamily(ctx)
 	LiteralFamily(ctx)
+	SpecialFamily(ctx)
 	RandomTraces(ctx, ctx.Pick(4000, 150000))
 }
 
